@@ -224,11 +224,17 @@ func runC08(e *Env) {
 		}
 		if f := e.fn("C08.R5", "net/observation.Handler.Handle"); f != nil && len(f.Params) == 3 {
 			ok := false
-			for _, c := range core.CallsNamed(f, "pkg/sync.Map.Load") {
-				if m, is := isTokenHash(core.Arg(c, 1)); is && m == ssa.Value(f.Params[2]) {
-					ok = true
+			core.Instrs(f, func(in ssa.Instruction) {
+				c, isCall := in.(*ssa.Call)
+				if !isCall {
+					return
 				}
-			}
+				if key, isLookup := observationLookup(e, c); isLookup {
+					if m, is := isTokenHash(key); is && m == ssa.Value(f.Params[2]) {
+						ok = true
+					}
+				}
+			})
 			e.R.Check(ok, "C08.R5", "net/observation.Handler.Handle:routes-by-token", e.fpos(f), "a notification is routed to the observation stored under its own token hash", "notifications are not routed by the received message's token")
 		}
 	}
@@ -292,4 +298,31 @@ func c08Predicate(e *Env) {
 	run("V1=0,V2∈[2^23,2^32−1]", zero, core.SymInt("v2", 32, false, big.NewInt(two23), big.NewInt(max32), 0), true, false, false, false)
 	run("V2=0,V1∈[1,2^23]", core.SymInt("v1", 32, false, big.NewInt(1), big.NewInt(two23), 0), zero, false, true, false, false)
 	run("V2=0,V1∈[2^23+1,2^32−1]", core.SymInt("v1", 32, false, big.NewInt(two23+1), big.NewInt(max32), 0), zero, false, true, false, true)
+}
+
+// observationLookup: c looks a key up in the observation table – observations.Load(key) itself, or the exported accessor
+// GetObservation(key) whose body is exactly that load of its own parameter. Returns the key.
+func observationLookup(e *Env, c *ssa.Call) (ssa.Value, bool) {
+	switch core.CalleeName(c) {
+	case "pkg/sync.Map.Load":
+		if strings.HasSuffix(tableOf(c), ".observations") {
+			return core.Arg(c, 1), true
+		}
+	case "net/observation.Handler.GetObservation":
+		g := core.StaticFn(c)
+		if g == nil || len(g.Params) != 2 {
+			return nil, false
+		}
+		n, okBody := 0, true
+		for _, lc := range core.Calls(g, func(nm string, _ ssa.CallInstruction) bool { return strings.HasPrefix(nm, "pkg/sync.Map.") }) {
+			n++
+			if core.CalleeName(lc) != "pkg/sync.Map.Load" || !strings.HasSuffix(tableOf(lc), ".observations") || core.Resolve(core.Arg(lc, 1)) != ssa.Value(g.Params[1]) {
+				okBody = false
+			}
+		}
+		if n == 1 && okBody {
+			return core.Arg(c, 1), true
+		}
+	}
+	return nil, false
 }
